@@ -1,0 +1,37 @@
+//go:build verif
+
+package gen
+
+import "github.com/xelaj/mtproto/internal/cmd/tlgen/tlparser"
+
+// VerifGoify exposes the name mangling used for every emitted identifier.
+func VerifGoify(name string, public bool) string { return goify(name, public) }
+
+// VerifClass is the classification createInternalSchema makes, by interface name.
+type VerifClass struct {
+	Enums   map[string][]tlparser.Object // interface -> constructors emitted as enum values
+	Types   map[string][]tlparser.Object // interface -> constructors emitted as structs behind an interface
+	Singles []tlparser.Object            // constructors emitted as stand-alone structs
+	Methods []tlparser.Method
+}
+
+// VerifClassify runs createInternalSchema and returns its result. Read-only export for the
+// verification harness.
+func VerifClassify(s *tlparser.Schema) (*VerifClass, error) {
+	is, err := createInternalSchema(s)
+	if err != nil {
+		return nil, err
+	}
+	c := &VerifClass{
+		Enums:   make(map[string][]tlparser.Object),
+		Types:   is.Types,
+		Singles: is.SingleInterfaceTypes,
+		Methods: is.Methods,
+	}
+	for k, es := range is.Enums {
+		for _, e := range es {
+			c.Enums[k] = append(c.Enums[k], tlparser.Object{Name: e.Name, CRC: e.CRC, Interface: k})
+		}
+	}
+	return c, nil
+}
